@@ -157,12 +157,40 @@ def has_rest_pm(ob):
     return False
 
 
+def rigid_geo(g, t, a):
+    if g["k"] == "circle":
+        return {"k": "circle", "c": geom.rigid(g["c"], t, a), "r": g["r"]}
+    if g["k"] == "poly":
+        return {"k": "poly", "v": [geom.rigid(p, t, a) for p in g["v"]]}
+    return {"k": "group", "m": [rigid_geo(m, t, a) for m in g["m"]]}
+
+
 def check_obstacle(r, ctx):
     ob = r
     if has_rest_pm(ob):
         ctx.discard("point-mass state at rest")
     obj = gs.build_obstacle(ob)
     nt = check_obstacle_object(ob, obj, ctx)
+    if ob.get("_motion"):
+        # metamorphic: the queries above have filled every cache; after a rigid motion of the obstacle each occupancy
+        # must be the rigid image of the occupancy before (same horizon)
+        t, a = ob["_motion"]
+        with warnings.catch_warnings():
+            warnings.simplefilter("ignore")
+            obj.translate_rotate(np.array(t, dtype=float), a)
+            for ts in times_of(ob):
+                exp = expected_occupancy(ob, ts)
+                occ = obj.occupancy_at_time(ts)
+                if (exp is None) != (occ is None):
+                    raise Violation("moved-occupancy-presence", "t=%d after translate_rotate: %r" % (ts, occ))
+                if exp is None:
+                    continue
+                e2 = rigid_geo(exp, t, a)
+                d = gg.same_geo(gg.lib_shape_geo(occ.shape), e2, 1e-8 * (1 + gg.geo_scale_of(e2) + abs(t[0]) + abs(t[1])))
+                if d:
+                    raise Violation("moved-occupancy-geometry-" + ob["role"], "t=%d after translate_rotate(%r, %r): %s"
+                                    % (ts, t, a, d))
+        ctx.label("with-motion")
     ctx.label("role-" + ob["role"])
     p = ob.get("pred")
     if p:
@@ -191,7 +219,10 @@ def s_obstacle(tier):
         return {"role": "dynamic", "id": 3, "type": "CAR", "shape": shape, "init": init,
                 "pred": {"k": "traj", "traj": {"t0": traj["t0"], "states": traj["states"]}}}
     custom_ob = st.tuples(custom_traj, gg.any_shape(centered=True), gg.exact_state("InitialState", 0)).map(custom)
-    return st.one_of(gs.obstacle_recipe(7), gs.obstacle_recipe(7, role="dynamic"), custom_ob)
+    from crverif.gen.values import translation
+    motion = st.one_of(st.none(), st.none(), st.tuples(translation(100), angle()).map(list))
+    return st.tuples(st.one_of(gs.obstacle_recipe(7), gs.obstacle_recipe(7, role="dynamic"), custom_ob), motion).map(
+        lambda t: dict(t[0], _motion=t[1]))
 
 
 # ------------------------------------------------------------------------------------------- uncertain enclosure
